@@ -89,17 +89,10 @@ MIX_BINDINGS = ["a", "a.b", "a[0]", "f(a,b)", "a+1", "{a:1}.a", "\"}}\"+a", "a?\
                 "a+\"\\\"}}\"", "{a}", "{...a,b}"]
 
 
-def mix_stream(chk, rng, quick):
-    """(1) the model of the value parser vs the real one on values whose bindings are well-formed and printed canonically;
-    (2) the model of the value printer, fed with the REAL parser's pieces, vs the real printer — on every value, also malformed ones"""
+def mix_sources(rng, n, canon):
+    """values made of text pieces and bindings; three in four are well-formed (bindings from `canon`, no accidental {{)"""
     import re
-    # canonical bindings: those the real expression printer prints as they are written
-    canon = [b for b, a in zip(MIX_BINDINGS, core.run_harness([core.req("expr_str", b) for b in MIX_BINDINGS])) if core.unesc(a) == b]
-    chk.bump("corr:mixture:canonical-bindings", len(canon))
-    if len(canon) < 8:
-        chk.violation("correspondence", "the expression printer no longer prints the canonical bindings of the mixture stream as written", canonical=canon)
     srcs, wellformed = [], []
-    n = 4000 if quick else 80000
     for i in range(n):
         parts = []
         wf = i % 4 != 3
@@ -132,6 +125,23 @@ def mix_stream(chk, rng, quick):
             out.append(t)
         srcs.append("".join(out))
         wellformed.append(wf)
+    return srcs, wellformed
+
+
+def mix_canon():
+    """canonical bindings: those the real expression printer prints as they are written"""
+    return [b for b, a in zip(MIX_BINDINGS, core.run_harness([core.req("expr_str", b) for b in MIX_BINDINGS])) if core.unesc(a) == b]
+
+
+def mix_stream(chk, rng, quick):
+    """(1) the model of the value parser vs the real one on values whose bindings are well-formed and printed canonically;
+    (2) the model of the value printer, fed with the REAL parser's pieces, vs the real printer — on every value, also malformed ones"""
+    import re
+    canon = mix_canon()
+    chk.bump("corr:mixture:canonical-bindings", len(canon))
+    if len(canon) < 8:
+        chk.violation("correspondence", "the expression printer no longer prints the canonical bindings of the mixture stream as written", canonical=canon)
+    srcs, wellformed = mix_sources(rng, 4000 if quick else 80000, canon)
     real = core.run_harness([core.req("mix_value", s_) for s_ in srcs])
     if real and real[0] == "bad-op":
         chk.notes.append("harness has no mix_value op: mixture correspondence skipped")
@@ -286,6 +296,15 @@ def run(chk):
     for attr in ["data=abc", "data=..o", "data=a:1", "is=t0 data=o", "is=t0", "wx:if=abc", "wx:for=abc", "class=abc", "bind:tap=abc", "model:value=abc",
                  "slot:a=abc", "wx:key=k", "data={{a:1}}", "data={{...o}}"]:
         srcs.append('<template name="t0">{{a}}{{p}}</template><template is="t0" %s/><v %s>x</v><block wx:for="{{l}}" %s>{{item}}</block>' % (attr, attr, attr))
+        nshape += 1
+    # text mixtures as text nodes and attribute values (the oracle side of the mixture model: fixpoint, diagnostics, behaviour)
+    msrcs_, mwf = mix_sources(rng.fork("mix-oracle"), 300 if quick else 6000, mix_canon() or ["a"])
+    for s_, wf in zip(msrcs_, mwf):
+        if wf and "<" not in s_:
+            srcs.append("<v>%s</v>" % s_ if '"' in s_ else '<v title="%s">%s</v>' % (s_, s_))
+            nshape += 1
+    for t_ in ['<v>{{b}}&#123;{{a}}</v>', '<v title="x{{b}}y&#123;{{a}}z"/>', '<v>{{b}}&#123;&#123;{{a}}</v>', '<v>{{a}}{{b}}&#123;{{c}}&#123;</v>', '<v>{{a}}&#123;{{b}}&#123;{{c}}</v>']:
+        srcs.append(t_)
         nshape += 1
     chk.bump("oracle:expression-shapes", nshape)
     first = core.run_harness([core.req("group", json.dumps({"files": [["p", s]]})) for s in srcs], timeout=3600)
